@@ -119,6 +119,9 @@ pub struct Hist {
 /// `until == t + τ`). A later reception restarts the record as usual.
 pub struct Purge<'a> {
     pub t: u64,
+    /// Trace index of the call that implies the cut: decides the order against packets
+    /// delivered at the very same instant (`None`: before all of them).
+    pub entry: Option<usize>,
     pub until: u64,
     pub filter: Box<dyn Fn(&RecId, &Life) -> bool + 'a>,
 }
@@ -164,9 +167,13 @@ impl Hist {
         let mut lives: HashMap<RecId, Vec<Life>> = HashMap::new();
         let mut purge_i = 0;
         let mut sorted_purges: Vec<usize> = (0..purges.len()).collect();
-        sorted_purges.sort_by_key(|i| purges[*i].t);
+        sorted_purges.sort_by_key(|i| (purges[*i].t, purges[*i].entry.unwrap_or(0)));
         for (t, _, di) in events {
-            while purge_i < sorted_purges.len() && purges[sorted_purges[purge_i]].t <= t {
+            let d_entry = di.map(|i| self.deliveries[i].entry).unwrap_or(usize::MAX);
+            while purge_i < sorted_purges.len() && {
+                let p = &purges[sorted_purges[purge_i]];
+                p.t < t || (p.t == t && p.entry.is_none_or(|e| e < d_entry))
+            } {
                 let p = &purges[sorted_purges[purge_i]];
                 apply_purge(&mut lives, p);
                 purge_i += 1;
